@@ -1146,6 +1146,37 @@ fn main() {
         });
     }
 
+    if prop == "C11" {
+        // peaked samples: one cell receives more rows of a single matrix than a narrow (8/16-bit) counter can hold
+        r.section("peaked_matrices", r.args.n(8, 60), |k, rng, acc| {
+            let nd = 1 + rng.below(2);
+            let mut axes: Vec<Vec<i32>> = vec![];
+            for _ in 0..nd {
+                let ne = 2 + rng.below(5);
+                axes.push((0..ne as i32).map(|i| i * 3).collect());
+            }
+            let len = match k % 4 {
+                0 => 65_536 + rng.below(4) + if rng.chance(0.5) { 0 } else { 4_000 },
+                1 => 70_000 + rng.below(30_000),
+                2 => 131_072 + rng.below(5_000),
+                _ => 256 + rng.below(600),
+            };
+            let hot: Vec<i32> = axes.iter().map(|e| rng.range(0, (e.len() as i64 - 1) * 3 - 1) as i32).collect();
+            let spread = *rng.pick(&[0usize, 50, 1000]);
+            let mut obs: Vec<Vec<i32>> = Vec::with_capacity(len);
+            for _ in 0..len {
+                if spread > 0 && rng.below(spread) == 0 {
+                    obs.push(axes.iter().map(|e| rng.range(-2, e.len() as i64 * 3 + 2) as i32).collect());
+                } else {
+                    obs.push(hot.clone());
+                }
+            }
+            c11_matrix_only(acc, &axes, &obs, rng);
+            acc.nontrivial(h64(&(&axes, obs.len(), &hot, spread)));
+            acc.count("peaked_matrices");
+        });
+    }
+
     if prop == "C12" {
         r.section("strategies", r.args.n(30_000, 600_000), |k, rng, acc| match k % 6 {
             0 => c12_case::<i32>(rng, acc, thorough),
